@@ -134,6 +134,37 @@ def oracle(n, alpha, eps, trace) -> list[str]:
     return errs
 
 
+def long_lived_agent(chk: Check, rng):
+    """one arm rewarded a very large number of times by one agent (a long calibration, or an agent kept across calibrations): more lessons than any
+    window, table or counter width one might think of; the update rule is the published one at every count.  The count-th and the (count+1)-th estimate are
+    compared bit for bit with the model; the last step is also judged by the exact rule."""
+    from black_it.schedulers.rl.agents.epsilon_greedy import MABEpsilonGreedy
+
+    reqs, impls, metas = [], [], []
+    for cnt in ([130000, 70000] if chk.tier == "quick" else [130000, 70000, 300000, 1100000]):
+        n = rng.randint(2, 4); a = rng.randrange(n)
+        alpha = -1.0 if cnt >= 100000 else rng.choice([-1.0, 0.25])      # the longest lives are sample-average ones: the step keeps shrinking as 1/count
+        r1 = rng.choice([0.5, 0.3, 0.125]); r2 = rng.choice([0.0, 1.0, 0.9])
+        ag = MABEpsilonGreedy(n, alpha, 0.0, initial_values=0.0, random_state=0)
+        for _ in range(cnt):
+            ag.learn(0, a, r1, 0)
+        q_before = [float(x) for x in ag.Q]; c_before = [int(x) for x in ag.actions_count]
+        ag.learn(0, a, r2, 0)
+        q_after = [float(x) for x in ag.Q]; c_after = [int(x) for x in ag.actions_count]
+        impls.append(" ".join(f2h(x) for x in q_before) + " / " + " ".join(map(str, c_before)) + " ; " + " ".join(f2h(x) for x in q_after) + " / " + " ".join(map(str, c_after)))
+        reqs.append(f"bandit.repeat {n} {f2h(alpha)} {f2h(0.0)} {f2h(0.0)} {a} {cnt} {f2h(r1)} {f2h(r2)}")
+        metas.append({"n_actions": n, "alpha": alpha, "action": a, "lessons": cnt, "reward": r1, "last_reward": r2})
+        chk.case(["long", n, alpha, a, cnt, r1, r2], True, metas[-1]); chk.count("long_lived_agent:lessons>=70000")
+        step = Fraction(1, c_before[a] + 1) if alpha == -1 else Fraction(alpha)
+        want = Fraction(q_before[a]) + step * (Fraction(r2) - Fraction(q_before[a]))
+        if abs(Fraction(q_after[a]) - want) > abs(want) * Fraction(1, 2 ** 45) + Fraction(1, 2 ** 60) or c_after[a] != cnt + 1:
+            chk.fail(f"bandit: after {cnt} lessons on action {a} (estimate {q_before[a]!r}) the lesson with reward {r2!r} moved the estimate to {q_after[a]!r}; the rule "
+                     f"(step {'1/count' if alpha == -1 else alpha}) gives {float(want)!r}", {"case": {"kind": "long_lived_agent", **metas[-1]}})
+    for rq, impl, ans, meta in zip(reqs, impls, lean_run(reqs), metas):
+        if impl != ans:
+            chk.disagree("MABEpsilonGreedy after many lessons != BlackIt.Bandit.learn iterated", {**meta, "impl": impl[:200], "model": ans[:200]})
+
+
 def run(chk: Check):
     rng = chk.rng
     chk.rule = ("scripted interactions with the real agent/env: policy calls (real PCG64 stream recorded, plus scripted boundary values of "
@@ -145,6 +176,7 @@ def run(chk: Check):
     chk.assumptions = ["theorems are over an exact ordered field; binary64 evaluation is tied by bit-exact comparison with the Float instance",
                        "reward rule assumes a non-zero previous best (property domain)"]
     chk.proof_stage(PROP_FILE)
+    long_lived_agent(chk, rng)
     n_scripts = 1500 if chk.tier == "quick" else 30000
     scripts = [gen_script(rng, chk) for _ in range(n_scripts)]
     reals = [run_real(*s) for s in scripts]
